@@ -1754,3 +1754,365 @@ Lemma stream_gap_fixed :
   exists u, sb_sub (sb_run cfg_now false (w_stream_gap ++ [OHistDrop (KS 0); OBcast 0; ORecv; ORecv; OSend; ORecv; OSend])) = Some u /\
             dpos (KS 0) (u_out u) = [0; 1; 2].
 Proof. eexists. split; vm_compute; reflexivity. Qed.
+
+(* ================================================================== liveness on the model: the drain *)
+Definition is_internal (o : sbop) : bool :=
+  match o with OAck _ | OHistBatch _ _ | OHistEvent | OHistDrop _ | ORecv | OSend => true | _ => false end.
+Definition is_drain (o : sbop) : bool := match o with OBcast _ => true | _ => is_internal o end.
+
+Section Drain.
+Variable c : sbcfg.
+Hypothesis Hbrk : c_brk c = true.
+
+(* st' is reached from st by acknowledgements and steps of the subscription task only *)
+Definition reach (st st' : sbstate) : Prop :=
+  exists more, Forall (fun o => is_internal o = true) more /\ st' = fold_left (sb_step c) more st.
+
+Lemma reach_refl st : reach st st.
+Proof. exists []. split; [constructor|reflexivity]. Qed.
+
+Lemma reach_trans a b d : reach a b -> reach b d -> reach a d.
+Proof.
+  intros (m1 & F1 & ->) (m2 & F2 & ->). exists (m1 ++ m2). split; [apply Forall_app; auto|]. rewrite fold_left_app. reflexivity.
+Qed.
+
+Lemma reach_step st o : is_internal o = true -> reach st (sb_step c st o).
+Proof. intros H. exists [o]. split; [constructor; [exact H|constructor]|reflexivity]. Qed.
+
+Lemma internal_op_wf o : is_drain o = true -> op_wf o.
+Proof. destruct o; cbn; intros H; try exact I; discriminate. Qed.
+
+Definition same_glob (st st' : sbstate) : Prop :=
+  sb_log st' = sb_log st /\ sb_wm st' = sb_wm st /\ sb_nb st' = sb_nb st.
+
+Lemma same_glob_refl st : same_glob st st.
+Proof. repeat split. Qed.
+Lemma same_glob_trans a b d : same_glob a b -> same_glob b d -> same_glob a d.
+Proof. intros (A1 & A2 & A3) (B1 & B2 & B3). repeat split; congruence. Qed.
+Lemma set_sub_glob st u : same_glob st (set_sub st u).
+Proof. repeat split. Qed.
+
+Lemma step_set_glob st o u : sb_step c st o = set_sub st u -> same_glob st (sb_step c st o).
+Proof. intros ->. apply set_sub_glob. Qed.
+
+(* ---- the window can always be reopened by an acknowledgement *)
+Lemma open_window st u :
+  sbinv c st -> sb_sub st = Some u -> 1 <= u_win u ->
+  exists st' u', reach st st' /\ same_glob st st' /\ sbinv c st' /\ sb_sub st' = Some u' /\ win_open u' = true /\
+                 u_ph u' = u_ph u /\ u_hold u' = u_hold u /\ u_q u' = u_q u /\ u_lagn u' = u_lagn u /\ u_win u' = u_win u /\
+                 u_m0 u' = u_m0 u.
+Proof.
+  intros Hi Hu Hw. destruct (win_open u) eqn:Ewin.
+  { exists st, u. split; [apply reach_refl|]. split; [apply same_glob_refl|]. split; [exact Hi|]. split; [exact Hu|]. split; [exact Ewin|]. repeat split. }
+  assert (Hcur : 1 <= u_cur u).
+  { unfold win_open in Ewin. destruct (u_ack u) as [a|]; apply Nat.leb_gt in Ewin; lia. }
+  set (o := OAck (u_cur u - 1)).
+  assert (Hst : sb_step c st o = set_sub st (u_set_ack u (Some (u_cur u - 1)))).
+  { assert (E : (u_cur u - 1 <? u_cur u) = true) by (apply Nat.ltb_lt; lia).
+    unfold o. cbn [sb_step]. rewrite Hu, E. reflexivity. }
+  exists (sb_step c st o), (u_set_ack u (Some (u_cur u - 1))).
+  split; [apply (reach_step st o); reflexivity|]. split; [rewrite Hst; apply set_sub_glob|].
+  split; [apply sbinv_step; [exact Hbrk|exact I|exact Hi]|]. split; [rewrite Hst; reflexivity|].
+  split; [|repeat split]. unfold win_open. cbn. apply Nat.leb_le. lia.
+Qed.
+
+(* ---- the history read ends *)
+Definition it_w (cur : option (hkey * nat)) (it : hiter) : nat :=
+  let r := h_end it - h_pos it in
+  match cur with
+  | Some (k, bend) => if hkey_eqb (h_key it) k then 3 * r + 2 + (if bend - h_pos it <? r then 3 else 0)
+                      else (if r =? 0 then 1 else 3 * r + 3)
+  | None => if r =? 0 then 1 else 3 * r + 3
+  end.
+Fixpoint wsum (cur : option (hkey * nat)) (l : list hiter) : nat := match l with [] => 0 | it :: r => it_w cur it + wsum cur r end.
+Definition hmeasure (u : subst) : nat := match u_ph u with PHist pend cur => wsum cur pend | PLive => 0 end.
+
+Lemma wsum_split cur k l it :
+  NoDup (map h_key l) -> find_it k l = Some it -> wsum cur l = it_w cur it + wsum cur (remove_it k l).
+Proof.
+  induction l as [|x l IH]; cbn [wsum find_it remove_it map]; [discriminate|]. intros Hnd Hf. inversion Hnd as [|? ? Hni Hnd']; subst.
+  destruct (hkey_eqb (h_key x) k) eqn:E.
+  - injection Hf as <-. f_equal. apply hkey_eqb_eq in E.
+    assert (Hr : remove_it k l = l).
+    { clear -Hni E. induction l as [|y l IH]; cbn [remove_it]; [reflexivity|]. destruct (hkey_eqb (h_key y) k) eqn:E2.
+      - apply hkey_eqb_eq in E2. exfalso. apply Hni. left. congruence.
+      - f_equal. apply IH. intros Hin. apply Hni. right. exact Hin. }
+    rewrite Hr. reflexivity.
+  - cbn [wsum]. rewrite (IH Hnd' Hf). lia.
+Qed.
+
+Lemma wsum_replace cur l it' :
+  NoDup (map h_key l) -> In (h_key it') (map h_key l) ->
+  wsum cur (replace_it it' l) = it_w cur it' + wsum cur (remove_it (h_key it') l).
+Proof.
+  intros Hnd Hin. assert (Hf := find_it_replace_same it' l Hin).
+  rewrite (wsum_split cur (h_key it') (replace_it it' l) it'); [|rewrite replace_it_keys; exact Hnd|exact Hf]. f_equal.
+  clear Hf Hin Hnd. induction l as [|y l IH]; cbn [replace_it remove_it]; [reflexivity|]. destruct (hkey_eqb (h_key y) (h_key it')) eqn:E; cbn [remove_it].
+  - rewrite hkey_eqb_refl. exact IH.
+  - rewrite E. cbn [wsum]. rewrite IH. reflexivity.
+Qed.
+
+Lemma wsum_others k b l : ~ In k (map h_key l) -> wsum (Some (k, b)) l = wsum None l.
+Proof.
+  induction l as [|x l IH]; cbn [wsum map]; [reflexivity|]. intros Hni. rewrite IH by (intros H; apply Hni; right; exact H).
+  unfold it_w. destruct (hkey_eqb (h_key x) k) eqn:E; [apply hkey_eqb_eq in E; exfalso; apply Hni; left; exact E|reflexivity].
+Qed.
+
+Lemma remove_it_notin k l : ~ In k (map h_key (remove_it k l)).
+Proof. intros Hin. apply in_map_iff in Hin. destruct Hin as (y & Hy & Hin). apply remove_it_in in Hin. tauto. Qed.
+
+Lemma hmeasure_mk_phase u l : hmeasure (u_set_ph u (mk_phase l None)) = wsum None l.
+Proof. unfold hmeasure. cbn. destruct l; reflexivity. Qed.
+
+Lemma w_some_dec r b : 1 <= r -> 1 <= b ->
+  3 * (r - 1) + 2 + (if b - 1 <? r - 1 then 3 else 0) < 3 * r + 2 + (if b <? r then 3 else 0).
+Proof. intros Hr Hb. destruct (Nat.ltb_spec (b - 1) (r - 1)), (Nat.ltb_spec b r); lia. Qed.
+
+Definition hist_rest (u u1 : subst) : Prop :=
+  u_hold u1 = None /\ u_q u1 = u_q u /\ u_lagn u1 = u_lagn u /\ u_win u1 = u_win u /\ u_m0 u1 = u_m0 u.
+
+(* one step of the history read under the fair policy: the measure drops *)
+Lemma hist_step st u pend cur :
+  sbinv c st -> sb_sub st = Some u -> u_ph u = PHist pend cur -> win_open u = true ->
+  exists o u1, is_internal o = true /\ sb_step c st o = set_sub st u1 /\ hist_rest u u1 /\ hmeasure u1 < hmeasure u.
+Proof.
+  intros Hi Hu Hph Hwin. pose proof Hi as (Hl & Hw & Hs). pose proof (Hs u Hu) as [Io Iph Ih Iq Iqe].
+  unfold phinv in Iph. rewrite Hph in Iph. destruct Iph as (PA & PB & PC & PD & PE).
+  destruct cur as [[k bend]|].
+  - (* inside a batch: OHistEvent *)
+    destruct (PE k bend eq_refl) as (it & Ef & Hb).
+    destruct (find_it_some _ _ _ Ef) as [Hin Hkey]. destruct (PD it Hin) as (D1 & D2 & D3). rewrite Hkey in D3.
+    assert (Hsum : hmeasure u = it_w (Some (k, bend)) it + wsum None (remove_it k pend)).
+    { unfold hmeasure. rewrite Hph. rewrite (wsum_split _ k pend it PB Ef). f_equal. apply wsum_others. apply remove_it_notin. }
+    assert (Hitw : it_w (Some (k, bend)) it = 3 * (h_end it - h_pos it) + 2 + (if bend - h_pos it <? h_end it - h_pos it then 3 else 0)).
+    { unfold it_w. rewrite Hkey, hkey_eqb_refl. reflexivity. }
+    exists OHistEvent. cbn [sb_step]. rewrite Hu, Hph, Ef.
+    destruct (bend <=? h_pos it) eqn:Eb.
+    + apply Nat.leb_le in Eb. eexists. split; [reflexivity|]. split; [reflexivity|]. split; [repeat split; exact PC|].
+      rewrite Hsum, Hitw. unfold hmeasure. cbn [u_ph u_set_ph]. rewrite (wsum_split None k pend it PB Ef). unfold it_w.
+      replace (bend - h_pos it) with 0 by lia.
+      destruct (h_end it - h_pos it) as [|r] eqn:Er; cbn; lia.
+    + apply Nat.leb_gt in Eb.
+      destruct (nth_error (klog c st k) (h_pos it)) as [e|] eqn:En; [|apply nth_error_None in En; lia].
+      destruct (e_seq e <? sb_wm st (e_pid e)).
+      * rewrite Hwin. eexists. split; [reflexivity|]. split; [reflexivity|]. split; [repeat split|].
+        rewrite Hsum, Hitw. unfold hmeasure. cbn [u_ph deliver].
+        set (it' := mkIt k (S (h_pos it)) (h_end it)).
+        rewrite (wsum_replace (Some (k, bend)) pend it' PB); [|cbn; eapply find_it_in_keys; exact Ef].
+        cbn [h_key it']. rewrite (wsum_others k bend _ (remove_it_notin k pend)).
+        unfold it_w. cbn [h_key h_pos h_end it']. rewrite hkey_eqb_refl.
+        replace (h_end it - S (h_pos it)) with (h_end it - h_pos it - 1) by lia.
+        replace (bend - S (h_pos it)) with (bend - h_pos it - 1) by lia.
+        pose proof (w_some_dec (h_end it - h_pos it) (bend - h_pos it) ltac:(lia) ltac:(lia)) as Hd. lia.
+      * assert (Hrm : forall (X : sbstate), X = set_sub st (u_set_ph u (mk_phase (remove_it k pend) None)) ->
+                      exists u1, X = set_sub st u1 /\ hist_rest u u1 /\ hmeasure u1 < hmeasure u).
+        { intros X ->. eexists. split; [reflexivity|]. split; [repeat split; exact PC|].
+          rewrite hmeasure_mk_phase, Hsum, Hitw. lia. }
+        destruct k as [q|q]; [|rewrite Hbrk]; (destruct (Hrm _ eq_refl) as (u1 & E1 & E2 & E3); exists u1; split; [reflexivity|]; split; [exact E1|]; split; assumption).
+  - (* at the pause point: fetch the next batch of the first pending iterator, or drop it when used up *)
+    destruct pend as [|it rest]; [congruence|].
+    assert (Ef : find_it (h_key it) (it :: rest) = Some it) by (cbn; rewrite hkey_eqb_refl; reflexivity).
+    assert (Hsum : hmeasure u = it_w None it + wsum None (remove_it (h_key it) (it :: rest))).
+    { unfold hmeasure. rewrite Hph. apply wsum_split; assumption. }
+    destruct (it_done it) eqn:Ed.
+    + exists (OHistDrop (h_key it)). cbn [sb_step]. rewrite Hu, Hph, Ef, Ed. eexists. split; [reflexivity|]. split; [reflexivity|].
+      split; [repeat split; exact PC|]. rewrite hmeasure_mk_phase, Hsum. unfold it_w. destruct (h_end it - h_pos it =? 0); lia.
+    + exists (OHistBatch (h_key it) (h_end it)). cbn [sb_step]. rewrite Hu, Hph, Ef, Ed. eexists. split; [reflexivity|]. split; [reflexivity|].
+      split; [repeat split; exact PC|]. unfold it_done in Ed. apply Nat.leb_gt in Ed.
+      rewrite Hsum. unfold hmeasure. cbn [u_ph u_set_ph].
+      rewrite (wsum_split _ (h_key it) (it :: rest) it PB Ef). rewrite (wsum_others _ _ _ (remove_it_notin (h_key it) (it :: rest))).
+      unfold it_w. rewrite hkey_eqb_refl. replace (Nat.min (h_pos it + h_end it) (h_end it)) with (h_end it) by lia.
+      rewrite Nat.ltb_irrefl. destruct (h_end it - h_pos it =? 0) eqn:E0; [apply Nat.eqb_eq in E0; lia|lia].
+Qed.
+
+Lemma hist_done n : forall st u,
+  sbinv c st -> sb_sub st = Some u -> 1 <= u_win u -> hmeasure u <= n ->
+  (exists pend cur, u_ph u = PHist pend cur) ->
+  exists st' u', reach st st' /\ same_glob st st' /\ sbinv c st' /\ sb_sub st' = Some u' /\ u_ph u' = PLive /\
+                 u_hold u' = None /\ u_q u' = u_q u /\ u_lagn u' = u_lagn u /\ u_win u' = u_win u /\ u_m0 u' = u_m0 u.
+Proof.
+  induction n as [|n IH]; intros st u Hi Hu Hw Hm (pend & cur & Hph).
+  - exfalso. destruct (open_window st u Hi Hu Hw) as (st1 & u1 & R1 & G1 & I1 & U1 & W1 & P1 & _).
+    rewrite Hph in P1. destruct (hist_step st1 u1 pend cur I1 U1 P1 W1) as (o & u2 & _ & _ & _ & Hlt).
+    assert (hmeasure u1 = hmeasure u) by (unfold hmeasure; rewrite P1, Hph; reflexivity). lia.
+  - destruct (open_window st u Hi Hu Hw) as (st1 & u1 & R1 & G1 & I1 & U1 & W1 & P1 & H1 & Q1 & L1 & V1 & M1).
+    rewrite Hph in P1. destruct (hist_step st1 u1 pend cur I1 U1 P1 W1) as (o & u2 & O2 & S2 & (H2 & Q2 & L2 & V2 & M2) & Hlt).
+    assert (Hm1 : hmeasure u1 = hmeasure u) by (unfold hmeasure; rewrite P1, Hph; reflexivity).
+    assert (I2 : sbinv c (sb_step c st1 o)) by (apply sbinv_step; [exact Hbrk|apply internal_op_wf; unfold is_drain; destruct o; try discriminate; reflexivity|exact I1]).
+    assert (R2 : reach st (sb_step c st1 o)) by (eapply reach_trans; [exact R1|apply reach_step; exact O2]).
+    assert (G2 : same_glob st (sb_step c st1 o)) by exact (same_glob_trans _ _ _ G1 (step_set_glob _ _ _ S2)).
+    assert (U2 : sb_sub (sb_step c st1 o) = Some u2) by (rewrite S2; reflexivity).
+    destruct (u_ph u2) as [pend2 cur2|] eqn:P2.
+    + destruct (IH (sb_step c st1 o) u2 I2 U2 ltac:(lia) ltac:(lia) (ex_intro _ pend2 (ex_intro _ cur2 P2)))
+        as (st' & u' & R3 & G3 & I3 & U3 & P3 & H3 & Q3 & L3 & V3 & M3).
+      exists st', u'. split; [eapply reach_trans; eassumption|]. split; [eapply same_glob_trans; eassumption|].
+      split; [exact I3|]. split; [exact U3|]. split; [exact P3|]. split; [exact H3|]. repeat split; congruence.
+    + exists (sb_step c st1 o), u2. split; [exact R2|]. split; [exact G2|].
+      split; [exact I2|]. split; [exact U2|]. split; [exact P2|]. split; [exact H2|]. repeat split; congruence.
+Qed.
+
+(* ---- the live loop empties the channel *)
+Lemma live_done n : forall st u,
+  sbinv c st -> sb_sub st = Some u -> 1 <= u_win u -> u_ph u = PLive -> u_lagn u = 0 ->
+  2 * length (u_q u) + (match u_hold u with Some _ => 1 | None => 0 end) <= n ->
+  exists st' u', reach st st' /\ same_glob st st' /\ sbinv c st' /\ sb_sub st' = Some u' /\ sub_idle u' /\ u_m0 u' = u_m0 u.
+Proof.
+  induction n as [|n IH]; intros st u Hi Hu Hw Hph Hlag Hm.
+  - exists st, u. split; [apply reach_refl|]. split; [apply same_glob_refl|]. split; [exact Hi|]. split; [exact Hu|].
+    destruct (u_hold u) eqn:Eh; [lia|]. destruct (u_q u) eqn:Eq; [|cbn in Hm; lia]. repeat split; assumption || reflexivity.
+  - destruct (u_hold u) as [e|] eqn:Eh.
+    + destruct (open_window st u Hi Hu Hw) as (st1 & u1 & R1 & G1 & I1 & U1 & W1 & P1 & H1 & Q1 & L1 & V1 & M1).
+      assert (S2 : sb_step c st1 OSend = set_sub st1 (deliver st1 u1 e (update_state (u_m u1) e) PLive None)).
+      { cbn. rewrite U1, P1, Hph, H1, Eh, W1. reflexivity. }
+      assert (I2 : sbinv c (sb_step c st1 OSend)) by (apply sbinv_step; [exact Hbrk|exact I|exact I1]).
+      set (u2 := deliver st1 u1 e (update_state (u_m u1) e) PLive None) in *.
+      assert (U2 : sb_sub (sb_step c st1 OSend) = Some u2) by (rewrite S2; reflexivity).
+      assert (Hw2 : 1 <= u_win u2) by (cbn; lia).
+      assert (Hm2 : 2 * length (u_q u2) + (match u_hold u2 with Some _ => 1 | None => 0 end) <= n) by (cbn; rewrite Q1; lia).
+      destruct (IH (sb_step c st1 OSend) u2 I2 U2 Hw2 eq_refl ltac:(cbn; congruence) Hm2) as (st' & u' & R3 & G3 & I3 & U3 & D3 & M3).
+      exists st', u'. split; [eapply reach_trans; [exact R1|eapply reach_trans; [apply (reach_step st1 OSend); reflexivity|exact R3]]|].
+      split; [exact (same_glob_trans _ _ _ G1 (same_glob_trans _ _ _ (step_set_glob _ _ _ S2) G3))|].
+      split; [exact I3|]. split; [exact U3|]. split; [exact D3|]. cbn in M3. congruence.
+    + destruct (u_q u) as [|e r] eqn:Eq.
+      { exists st, u. split; [apply reach_refl|]. split; [apply same_glob_refl|]. split; [exact Hi|]. split; [exact Hu|]. repeat split; assumption || reflexivity. }
+      assert (S2 : sb_step c st ORecv = set_sub st (u_set_q u (if has_seen (u_m u) e then None else Some e) r 0)).
+      { cbn. rewrite Hu, Hph, Eh, Hlag, Eq. reflexivity. }
+      assert (I2 : sbinv c (sb_step c st ORecv)) by (apply sbinv_step; [exact Hbrk|exact I|exact Hi]).
+      set (u2 := u_set_q u (if has_seen (u_m u) e then None else Some e) r 0) in *.
+      assert (U2 : sb_sub (sb_step c st ORecv) = Some u2) by (rewrite S2; reflexivity).
+      assert (Hm2 : 2 * length (u_q u2) + (match u_hold u2 with Some _ => 1 | None => 0 end) <= n).
+      { cbn. cbn in Hm. destruct (has_seen (u_m u) e); lia. }
+      destruct (IH (sb_step c st ORecv) u2 I2 U2 Hw Hph eq_refl Hm2) as (st' & u' & R3 & G3 & I3 & U3 & D3 & M3).
+      exists st', u'. split; [eapply reach_trans; [apply (reach_step st ORecv); reflexivity|exact R3]|].
+      split; [exact (same_glob_trans _ _ _ (step_set_glob _ _ _ S2) G3)|].
+      split; [exact I3|]. split; [exact U3|]. split; [exact D3|]. exact M3.
+Qed.
+
+(* ---- from every state the task can run until it has nothing left to do *)
+Theorem drain_to_idle st u :
+  sbinv c st -> sb_sub st = Some u -> 1 <= u_win u ->
+  exists st' u', reach st st' /\ same_glob st st' /\ sbinv c st' /\ sb_sub st' = Some u' /\ sub_idle u' /\ u_m0 u' = u_m0 u.
+Proof.
+  intros Hi Hu Hw.
+  (* 1: finish the history read in progress *)
+  assert (S1 : exists st1 u1, reach st st1 /\ same_glob st st1 /\ sbinv c st1 /\ sb_sub st1 = Some u1 /\ u_ph u1 = PLive /\
+                              u_win u1 = u_win u /\ u_m0 u1 = u_m0 u).
+  { destruct (u_ph u) as [pend cur|] eqn:Eph.
+    - destruct (hist_done (hmeasure u) st u Hi Hu Hw (le_n _) (ex_intro _ pend (ex_intro _ cur Eph)))
+        as (st1 & u1 & R & G & I1 & U1 & P1 & _ & _ & _ & V1 & M1).
+      exists st1, u1. split; [exact R|]. split; [exact G|]. split; [exact I1|]. split; [exact U1|]. split; [exact P1|]. split; [exact V1|exact M1].
+    - exists st, u. split; [apply reach_refl|]. split; [apply same_glob_refl|]. split; [exact Hi|]. split; [exact Hu|]. split; [exact Eph|]. split; reflexivity. }
+  destruct S1 as (st1 & u1 & R1 & G1 & I1 & U1 & P1 & V1 & M1).
+  (* 2: send the record that waits for the window *)
+  assert (S2 : exists st2 u2, reach st1 st2 /\ same_glob st1 st2 /\ sbinv c st2 /\ sb_sub st2 = Some u2 /\ u_ph u2 = PLive /\
+                              u_hold u2 = None /\ u_win u2 = u_win u /\ u_m0 u2 = u_m0 u).
+  { destruct (u_hold u1) as [e|] eqn:Eh.
+    - destruct (open_window st1 u1 I1 U1 ltac:(lia)) as (sa & ua & Ra & Ga & Ia & Ua & Wa & Pa & Ha & Qa & La & Va & Ma).
+      assert (Sb : sb_step c sa OSend = set_sub sa (deliver sa ua e (update_state (u_m ua) e) PLive None)).
+      { cbn. rewrite Ua, Pa, P1, Ha, Eh, Wa. reflexivity. }
+      exists (sb_step c sa OSend), (deliver sa ua e (update_state (u_m ua) e) PLive None).
+      split; [eapply reach_trans; [exact Ra|apply (reach_step sa OSend); reflexivity]|].
+      split; [exact (same_glob_trans _ _ _ Ga (step_set_glob _ _ _ Sb))|].
+      split; [apply sbinv_step; [exact Hbrk|exact I|exact Ia]|]. split; [rewrite Sb; reflexivity|]. cbn. repeat split; congruence.
+    - exists st1, u1. split; [apply reach_refl|]. split; [apply same_glob_refl|]. split; [exact I1|]. split; [exact U1|]. split; [exact P1|]. split; [exact Eh|]. split; assumption. }
+  destruct S2 as (st2 & u2 & R2 & G2 & I2 & U2 & P2 & H2 & V2 & M2).
+  (* 3: a lagged receiver reads the history again *)
+  assert (S3 : exists st3 u3, reach st2 st3 /\ same_glob st2 st3 /\ sbinv c st3 /\ sb_sub st3 = Some u3 /\ u_ph u3 = PLive /\
+                              u_lagn u3 = 0 /\ u_win u3 = u_win u /\ u_m0 u3 = u_m0 u).
+  { destruct (0 <? u_lagn u2) eqn:El.
+    - set (ux := mkSub (u_m0 u2) (u_m u2) (u_win u2) (u_cur u2) (u_ack u2) (u_ph u2) None (u_q u2) 0 (u_out u2) (u_lagn u2 :: u_lags u2)).
+      assert (Sb : sb_step c st2 ORecv = set_sub st2 (enter_history c st2 ux)).
+      { cbn [sb_step]. rewrite U2, P2, H2, El. reflexivity. }
+      assert (Ib : sbinv c (sb_step c st2 ORecv)) by (apply sbinv_step; [exact Hbrk|exact I|exact I2]).
+      assert (Fx : u_lagn (enter_history c st2 ux) = 0 /\ u_win (enter_history c st2 ux) = u_win u2 /\ u_m0 (enter_history c st2 ux) = u_m0 u2).
+      { unfold enter_history. destruct (start_history c st2 (u_m ux)). cbn. auto. }
+      destruct Fx as (Fl & Fw & Fm).
+      destruct (u_ph (enter_history c st2 ux)) as [pend cur|] eqn:Ex.
+      + destruct (hist_done (hmeasure (enter_history c st2 ux)) (sb_step c st2 ORecv) (enter_history c st2 ux) Ib
+                    ltac:(rewrite Sb; reflexivity) ltac:(lia) (le_n _) (ex_intro _ pend (ex_intro _ cur Ex)))
+          as (sc & uc & Rc & Gc & Ic & Uc & Pc & _ & _ & Lc & Vc & Mc).
+        exists sc, uc. split; [eapply reach_trans; [apply (reach_step st2 ORecv); reflexivity|exact Rc]|].
+        split; [exact (same_glob_trans _ _ _ (step_set_glob _ _ _ Sb) Gc)|]. split; [exact Ic|]. split; [exact Uc|]. split; [exact Pc|]. repeat split; congruence.
+      + exists (sb_step c st2 ORecv), (enter_history c st2 ux). split; [apply (reach_step st2 ORecv); reflexivity|].
+        split; [exact (step_set_glob _ _ _ Sb)|]. split; [exact Ib|]. split; [rewrite Sb; reflexivity|]. split; [exact Ex|]. repeat split; congruence.
+    - apply Nat.ltb_ge in El. exists st2, u2. split; [apply reach_refl|]. split; [apply same_glob_refl|]. split; [exact I2|]. split; [exact U2|]. split; [exact P2|]. split; [lia|]. split; assumption. }
+  destruct S3 as (st3 & u3 & R3 & G3 & I3 & U3 & P3 & L3 & V3 & M3).
+  (* 4: empty the channel *)
+  destruct (live_done _ st3 u3 I3 U3 ltac:(lia) P3 L3 (le_n _)) as (st4 & u4 & R4 & G4 & I4 & U4 & D4 & M4).
+  exists st4, u4. split; [eapply reach_trans; [exact R1|eapply reach_trans; [exact R2|eapply reach_trans; [exact R3|exact R4]]]|].
+  split; [eapply same_glob_trans; [exact G1|eapply same_glob_trans; [exact G2|eapply same_glob_trans; [exact G3|exact G4]]]|].
+  split; [exact I4|]. split; [exact U4|]. split; [exact D4|]. congruence.
+Qed.
+
+End Drain.
+
+(* ---- liveness of the model: after one broadcast per partition the task, given acknowledgements, runs
+   until it is idle, and then everything confirmed from the start position on has been delivered *)
+Lemma bcast_all c (Hb : c_brk c = true) l : forall st u,
+  sbinv c st -> sb_sub st = Some u ->
+  let st' := fold_left (sb_step c) (map OBcast l) st in
+  sbinv c st' /\ sb_log st' = sb_log st /\ sb_wm st' = sb_wm st /\
+  (exists u', sb_sub st' = Some u' /\ u_win u' = u_win u /\ u_m0 u' = u_m0 u) /\
+  (forall p, sb_nb st p <= sb_nb st' p) /\ (forall p, In p l -> sb_nb st' p = sb_wm st p).
+Proof.
+  induction l as [|q l IH]; intros st u Hi Hu; cbn [map fold_left].
+  - split; [exact Hi|]. split; [reflexivity|]. split; [reflexivity|]. split; [exists u; auto|]. split; [intros; lia|intros p []].
+  - set (st1 := sb_step c st (OBcast q)).
+    assert (I1 : sbinv c st1) by (apply sbinv_step; [exact Hb|exact I|exact Hi]).
+    assert (E1 : st1 = mkSb (sb_log st) (sb_wm st) (fupd (sb_nb st) q (Nat.max (sb_nb st q) (sb_wm st q))) (sb_bg st)
+                            (Some (fold_left (q_push c) (slice (sb_log st q) (sb_nb st q) (sb_wm st q)) u))).
+    { unfold st1. cbn [sb_step]. rewrite Hu. reflexivity. }
+    destruct (fold_push_fields c (slice (sb_log st q) (sb_nb st q) (sb_wm st q)) u) as [F1 F2].
+    destruct (IH st1 _ I1 ltac:(rewrite E1; reflexivity)) as (A & B & C & (u' & D1 & D2 & D3) & E & F).
+    destruct Hi as (_ & Hw & _).
+    split; [exact A|]. split; [rewrite B, E1; reflexivity|]. split; [rewrite C, E1; reflexivity|].
+    split; [exists u'; split; [exact D1|]; split; congruence|].
+    assert (Hnb1 : forall p, sb_nb st p <= sb_nb st1 p).
+    { intros p. rewrite E1. cbn. unfold fupd. destruct (p =? q) eqn:Eq; [apply Nat.eqb_eq in Eq; subst; lia|lia]. }
+    split; [intros p; specialize (E p); specialize (Hnb1 p); lia|].
+    intros p [->|Hin].
+    + assert (H1 : sb_nb st1 p = sb_wm st p).
+      { rewrite E1. cbn. unfold fupd. rewrite Nat.eqb_refl. destruct (Hw p). lia. }
+      destruct A as (_ & Hw' & _). destruct (Hw' p) as [X _]. rewrite C in X. specialize (E p).
+      assert (sb_wm st1 p = sb_wm st p) by (rewrite E1; reflexivity). lia.
+    + rewrite (F p Hin). rewrite E1. reflexivity.
+Qed.
+
+Theorem sub_eventual c bg ops u :
+  c_brk c = true -> ops_wf ops -> sb_sub (sb_run c bg ops) = Some u -> 1 <= u_win u ->
+  exists more, Forall (fun o => is_drain o = true) more /\
+    let st := sb_run c bg ops in let st' := sb_run c bg (ops ++ more) in
+    sb_log st' = sb_log st /\ sb_wm st' = sb_wm st /\
+    exists u', sb_sub st' = Some u' /\ sub_idle u' /\ u_m0 u' = u_m0 u /\
+      forall k first, key_kind (u_m0 u) k = true -> kpid c k < c_np c ->
+        (sub_start (u_m0 u) k = Some first \/ (dpos k (u_out u') <> [] /\ first = hd 0 (dpos k (u_out u')))) ->
+        forall e, In e (klog c st k) -> first <= kpos k e -> e_seq e < sb_wm st (kpid c k) -> In e (map d_ev (u_out u')).
+Proof.
+  intros Hb Hwf Hu Hwin. set (st := sb_run c bg ops).
+  assert (Hi : sbinv c st) by (apply sbinv_run; assumption).
+  destruct (bcast_all c Hb (owned c) st u Hi Hu) as (I1 & L1 & W1 & (u1 & U1 & V1 & M1) & _ & N1).
+  set (st1 := fold_left (sb_step c) (map OBcast (owned c)) st) in *.
+  destruct (drain_to_idle c Hb st1 u1 I1 U1 ltac:(lia)) as (st2 & u2 & (more2 & F2 & E2) & (G2a & G2b & G2c) & I2 & U2 & D2 & M2).
+  exists (map OBcast (owned c) ++ more2).
+  assert (Hrun : sb_run c bg (ops ++ map OBcast (owned c) ++ more2) = st2).
+  { unfold sb_run. rewrite !fold_left_app. fold (sb_run c bg ops). fold st. fold st1. symmetry. exact E2. }
+  assert (Hwf2 : ops_wf (ops ++ map OBcast (owned c) ++ more2)).
+  { apply Forall_app. split; [exact Hwf|]. apply Forall_app. split.
+    - apply Forall_forall. intros o Ho. apply in_map_iff in Ho. destruct Ho as (p & <- & _). exact I.
+    - eapply Forall_impl; [|exact F2]. intros o Ho. apply internal_op_wf. unfold is_drain. destruct o; try discriminate; reflexivity. }
+  split.
+  { apply Forall_app. split.
+    - apply Forall_forall. intros o Ho. apply in_map_iff in Ho. destruct Ho as (p & <- & _). reflexivity.
+    - eapply Forall_impl; [|exact F2]. intros o Ho. unfold is_drain. destruct o; try discriminate; reflexivity. }
+  cbn zeta. rewrite Hrun. split; [congruence|]. split; [congruence|].
+  exists u2. split; [exact U2|]. split; [exact D2|]. split; [congruence|].
+  intros k first Hk Hnp Hfirst e Hin Hge Hlt.
+  assert (Hklog : klog c st2 k = klog c st k).
+  { destruct k; cbn; rewrite G2a, L1; reflexivity. }
+  pose proof (sub_idle_complete c bg (ops ++ map OBcast (owned c) ++ more2) u2 Hb Hwf2) as Hc. cbn zeta in Hc. rewrite Hrun in Hc.
+  apply (Hc U2 D2 k first); try assumption.
+  - rewrite M2, M1. exact Hk.
+  - rewrite M2, M1. exact Hfirst.
+  - rewrite Hklog. exact Hin.
+  - rewrite G2c. rewrite (N1 (kpid c k)); [exact Hlt|]. apply memb_in. apply memb_owned. exact Hnp.
+Qed.
